@@ -1011,11 +1011,11 @@ Proof.
 Qed.
 
 (* disjoint union graph *)
-Lemma union_from_nodes ms : forall o, fst (union_from At o ms) = o + nsum g_nodes ms.
+Lemma union_shift_nodes ms : forall o, fst (union_shift At o ms) = o + nsum g_nodes ms.
 Proof.
-  unfold nsum, list_sum. induction ms as [|m ms IH]; intro o; cbn [union_from map fold_right].
+  unfold nsum, list_sum. induction ms as [|m ms IH]; intro o; cbn [union_shift map fold_right].
   - cbn. lia.
-  - specialize (IH (o + g_nodes m)). destruct (union_from At (o + g_nodes m) ms) as [n es].
+  - specialize (IH (o + g_nodes m)). destruct (union_shift At (o + g_nodes m) ms) as [n es].
     cbn [fst] in *. lia.
 Qed.
 
@@ -1025,16 +1025,16 @@ Proof. reflexivity. Qed.
 Lemma goff_cons m ms k : goff (m :: ms) (S k) = g_nodes m + goff ms k.
 Proof. unfold goff, nsum, list_sum. cbn [firstn map fold_right]. reflexivity. Qed.
 
-Lemma union_from_edges ms : forall o a b,
-  In (a, b) (snd (union_from At o ms)) <->
+Lemma union_shift_edges ms : forall o a b,
+  In (a, b) (snd (union_shift At o ms)) <->
   exists k m a' b', nth_error ms k = Some m /\ In (a', b') (g_edges m) /\
                     a = o + goff ms k + a' /\ b = o + goff ms k + b'.
 Proof.
   induction ms as [|m ms IH]; intros o a b.
-  - cbn [union_from snd]. split; [intros []|].
+  - cbn [union_shift snd]. split; [intros []|].
     intros [k [m [a' [b' [H _]]]]]. destruct k; discriminate.
-  - cbn [union_from]. specialize (IH (o + g_nodes m) a b).
-    destruct (union_from At (o + g_nodes m) ms) as [n es]. cbn [snd] in *. split.
+  - cbn [union_shift]. specialize (IH (o + g_nodes m) a b).
+    destruct (union_shift At (o + g_nodes m) ms) as [n es]. cbn [snd] in *. split.
     + intro H. apply in_app_or in H. destruct H as [H|H].
       * apply in_map_iff in H. destruct H as [[a' b'] [He Hin]]. unfold shift_edge in He. cbn [fst snd] in He.
         injection He as Ha Hb. exists 0, m, a', b'. cbn [nth_error]. rewrite goff_0.
@@ -1048,6 +1048,30 @@ Proof.
         f_equal; lia.
       * right. apply IH. cbn [nth_error] in Hk. rewrite goff_cons in Ha, Hb.
         exists k, m', a', b'. split; [exact Hk|]. split; [exact Hin|]. lia.
+Qed.
+
+(* with the nodes in label order (a freshly built graph) position = label and the code's union is the aligned one *)
+Definition sorted_nodes (m : mol) : Prop :=
+  g_order At m = seq 0 (g_nodes m) /\ forall a b, In (a, b) (g_edges m) -> a < g_nodes m /\ b < g_nodes m.
+
+Lemma pos_of_seq n : forall s a, s <= a < s + n -> pos_of a (seq s n) = a - s.
+Proof.
+  induction n as [|n IH]; intros s a H; [lia|]. cbn [seq pos_of].
+  destruct (a =? s) eqn:E.
+  - apply Nat.eqb_eq in E. lia.
+  - apply Nat.eqb_neq in E. rewrite IH by lia. lia.
+Qed.
+
+Lemma union_from_sorted ms : (forall m, In m ms -> sorted_nodes m) ->
+  forall o, union_from At o ms = union_shift At o ms.
+Proof.
+  induction ms as [|m ms IH]; intros H o; [reflexivity|].
+  cbn [union_from union_shift]. rewrite IH by (intros m' Hm'; apply H; right; exact Hm').
+  destruct (union_shift At (o + g_nodes m) ms) as [n es]. f_equal. f_equal.
+  destruct (H m (or_introl eq_refl)) as [Ho He].
+  apply map_ext_in. intros [a b] Hab. destruct (He a b Hab) as [Ha Hb].
+  unfold relabel_edge, shift_edge. cbn [fst snd]. rewrite Ho.
+  rewrite !pos_of_seq by lia. f_equal; lia.
 Qed.
 
 Lemma nsum_ext_in (f g : mol -> nat) (l : list mol) :
